@@ -40,8 +40,46 @@ ops_sets = [
 for ops in ops_sets:
     for mode, ci in ((1, 3), (2, 0), (0, 0), (3, 4), (6, 7), (1, 5)):
         put("stream_ops", bytes([mode, ci, 0, 2] + ops))
+
+# serve_sem: same format as serve_total; requests that reach If-Range / multipart / HEAD logic
+sem_reqs = [
+ [("range", b"bytes=0-1, 3-4")], [("range", b"bytes=0-0,-1")], [("range", b"bytes=1-3"), ("if-range", b'"foo"')], [("range", b"bytes=1-3, 5-6"), ("if-range", b'"foo"')],
+ [("range", b"bytes=1-3"), ("if-range", b'W/"foo"')], [("range", b"bytes=1-3"), ("if-range", D)], [("range", b"bytes=1-3,7-9"), ("if-range", L)], [("range", b"bytes=1-3"), ("if-range", b'"fo"')],
+ [("range", b"bytes=0-0, 2-2, 4-4, 6-6")], [("range", b"bytes=-1, 0-0")], [("range", b"bytes=500-")], [], [("if-none-match", b'"foo"'), ("range", b"bytes=0-1, 3-4")],
+]
+for h in sem_reqs:
+    for lensel, et in ((4, 1), (3, 2), (12, 1), (8, 0)):
+        put("serve_sem", serve(lensel, et, 2, [5], 1, 0, h))
+    put("serve_sem", serve(4, 1, 3, [0, 4, 3], 0, 0, h))
+# cond_diff: etag sel, mtime sel, flags, then one field per set flag bit (IM, INM, IMS, IUS, Range)
+P = b"Sun, 06 Nov 1994 08:49:36 GMT"; N = b"Sun, 06 Nov 1994 08:49:38 GMT"; RFC850 = b"Sunday, 06-Nov-94 08:49:37 GMT"; ASC = b"Sun Nov  6 08:49:37 1994"
+def cond(et, mt, im=None, inm=None, ims=None, ius=None, rng=None, head=False):
+    flags = 0; body = b""
+    for bit, v in ((1, im), (2, inm), (4, ims), (8, ius), (16, rng)):
+        if v is not None:
+            flags |= bit; body += v + b"\0"
+    return bytes([et, mt, flags | (32 if head else 0)]) + body
+tags = [b'"foo"', b'W/"foo"', b'"bar"', b"*", b'"bar", "foo"', b'"a, b", W/"foo"', b'"bar",\t"foo"']
+dates = [D, P, N, RFC850, ASC]
+for et in (0, 1, 2, 9):
+    for mt in (0, 1, 3):
+        for t in tags[:4]:
+            put("cond_diff", cond(et, mt, im=t)); put("cond_diff", cond(et, mt, inm=t))
+        for d in dates[:3]:
+            put("cond_diff", cond(et, mt, ims=d)); put("cond_diff", cond(et, mt, ius=d))
+for t in tags:
+    for d in dates:
+        put("cond_diff", cond(1, 1, im=t, ius=d)); put("cond_diff", cond(1, 1, inm=t, ims=d, head=True)); put("cond_diff", cond(2, 2, im=t, inm=t, ims=d, ius=d, rng=b"bytes=0-1"))
+# fsdir_path: mode byte, Accept-Encoding field, NUL, then the path
+for path in [b"a", b"sub/a", b"c", b"sub", b"..", b"sub/../a", b"/a", b"link", b"a\0", b"...", b"..a", b"a..", b"d", b"e", b"f", b"g", b"b", b"b.gz", b"sub/", b"./a", b"sub//a", b"", b"a/x", b"\xc3\xa9", b"....gz", b"sub/.gz"]:
+    for m, ae in ((0, b""), (5, b""), (1, b""), (7, b"gzip;q=0.5, identity;q=0.6"), (7, b"*"), (3, b"gzip")):
+        put("fsdir_path", bytes([m]) + ae + b"\0" + path)
 os.makedirs(f"{base}/dict", exist_ok=True)
 open(f"{base}/dict/serve_total.dict", "w").write("\n".join(['"bytes="', '"W/\\""', '"\\""', '"*"', '", "', '"-"', '","', '" GMT"', '"Sun, 06 Nov 1994 08:49:37 GMT"', '"18446744073709551615"', '"18446744073709551616"', '"\\x00"', '"foo"', '"a, b"']) + "\n")
 open(f"{base}/dict/range_diff.dict", "w").write("\n".join(['"bytes="', '"-"', '","', '", "', '"18446744073709551615"', '"18446744073709551616"', '"4294967296"', '"9223372036854775808"', '"0"', '"\\x00"']) + "\n")
 open(f"{base}/dict/accept_encoding.dict", "w").write("\n".join(['"gzip"', '"identity"', '"*"', '";q="', '"q="', '"0."', '"1."', '"0.001"', '"1.000"', '", "', '","', '";"', '"br"', '"\\x00"']) + "\n")
+import shutil
+shutil.copy(f"{base}/dict/serve_total.dict", f"{base}/dict/serve_sem.dict")
+open(f"{base}/dict/cond_diff.dict", "w").write("\n".join(['"W/\\""', '"\\""', '"*"', '", "', '","', '" GMT"', '"Sun, 06 Nov 1994 08:49:37 GMT"', '"Sun, 06 Nov 1994 08:49:36 GMT"', '"Sun, 06 Nov 1994 08:49:38 GMT"', '"Sunday, 06-Nov-94 08:49:37 GMT"', '"Sun Nov  6 08:49:37 1994"', '"\\x00"', '"\\"foo\\""', '"W/\\"foo\\""', '"\\"a, b\\""', '"\\"bar\\""', '"bytes=0-1"', '"Mon, 07 Nov 1994 08:49:37 GMT"', '"Thu, 01 Jan 1970 00:00:00 GMT"']) + "\n")
+open(f"{base}/dict/fsdir_path.dict", "w").write("\n".join(['"/"', '".."', '"."', '"..."', '".gz"', '"sub"', '"link"', '"secret"', '"a"', '"../"', '"/.."', '"\\x00"', '"gzip"', '"identity"', '";q=0"', '"b.gz"', '"sub/a"']) + "\n")
 print({t: len(os.listdir(f"{base}/seeds/{t}")) for t in os.listdir(f"{base}/seeds")})
